@@ -146,7 +146,7 @@ LAYOUTS = {
     "<woff2::TransformedGlyphTable<'b> as binary::read::ReadBinary>::read": (
         "transformed glyf: reserved+optionFlags, numGlyphs, indexFormat, the seven stream sizes nContour, nPoints, flag, glyph, composite, bbox, "
         "instruction, then the streams in the same order (bboxBitmap before bboxStream)",
-        [(4, None), (2, "glyphs"), (2, "format"), (4, "contour"), (4, "points"), (4, "flag"), (4, "glyph"), (4, "composite"), (4, "bbox"), (4, "instruction"),
+        [(4, "!const"), (2, "glyphs"), (2, "format"), (4, "contour"), (4, "points"), (4, "flag"), (4, "glyph"), (4, "composite"), (4, "bbox"), (4, "instruction"),
          ("bytes", "contour"), ("bytes", "points"), ("bytes", "flag"), ("bytes", "glyph"), ("bytes", "composite"), ("bytes", "bitmap"), ("bytes", "bbox"),
          ("bytes", "instruction")]),
     # ---- kern ----
@@ -242,6 +242,11 @@ def compare_items(spec, items, why):
             if it.kind != "bytes":
                 probs.append("item %d is %s, the specification has a byte range" % (k, it.show()))
                 continue
+        if kw == "!const":
+            # reserved bits / option flags: conforming files set them, the reader must not require a value
+            if it.const is not None:
+                probs.append("item %d is required to equal %s; the specification leaves its value to the encoder (reserved / option flags)" % (k, it.const))
+            continue
         if kw and it.field and _norm(kw) not in _norm(it.field):
             probs.append("item %d ends up in `%s`; by the specification it is the %s item" % (k, it.field, kw))
     return probs
